@@ -462,7 +462,7 @@ func c03Kind(v any) int {
 func H_C03_repr() {
 	// digit template: a concrete prefix (chosen around the int64 / uint64 boundaries and
 	// beyond) followed by symbolic digits
-	prefixes := []string{"", "1", "1234", "92233720368547758", "184467440737095516", "1234567890123456789012"}
+	prefixes := []string{"", "1", "1234", "92233720368547758", "184467440737095516", "1234567890123456789012", "0", "00", "0184467440737095516", "0000000000123456789012345678", "0922337203685477580"}
 	pre := prefixes[nondetChoice(len(prefixes))]
 	nd := 1 + nondetChoice(vparam("symdigits", 2))
 	digits := make([]byte, nd)
@@ -505,6 +505,25 @@ func H_C03_repr() {
 		vassert(same(funcAbs(jn), funcAbs(pn)), "abs(json.Number)")
 		vassert(same(funcLength(jn), funcLength(pn)), "length(json.Number)")
 	case 3:
+		// the parsed value is the decimal value of the digits (leading zeros do not make it octal)
+		want, _ := new(big.Int).SetString("0"+pre, 10)
+		dv := 0
+		for _, d := range digits {
+			want.Mul(want, big.NewInt(10))
+			dv = dv*10 + int(d-'0')
+		}
+		want.Add(want, bigOfInt(dv))
+		if lit[0] == '-' {
+			want.Neg(want)
+		}
+		switch p := pn.(type) {
+		case int:
+			vassert(bigEq(bigOfInt(p), want), "an integer literal denotes the decimal value of its digits")
+		case *big.Int:
+			vassert(bigEq(p, want), "an integer literal denotes the decimal value of its digits")
+		default:
+			vassert(false, "an integer literal is parsed to an integer")
+		}
 		vassert(Compare(jn, pn) == 0, "a json.Number equals its parsed value")
 		vassert(Compare(jn, other) == Compare(pn, other), "comparison does not depend on the representation")
 	case 4:
